@@ -247,6 +247,25 @@ where
             let r: AF<K> = chip.assigned_from_le_bits(l, &bits)?;
             out_elem(ctx, ng, l, &r)
         }
+        "from_le_bytes" => {
+            let n = s.p_usize("n");
+            let mut bytes = Vec::with_capacity(n);
+            for _ in 0..n {
+                let v = ctx.take();
+                let b: AssignedByte<F> = ng.assign(l, Value::known(v.to_u32_digits().first().copied().unwrap_or(0) as u8))?;
+                let c: AssignedNative<F> = b.clone().into();
+                ctx.expose(ng, l, &c, true)?;
+                bytes.push(b);
+            }
+            let r: AF<K> = chip.assigned_from_le_bytes(l, &bytes)?;
+            out_elem(ctx, ng, l, &r)
+        }
+        // sign of an element (RFC 9380: sgn0 = canonical residue mod 2)
+        "sgn0" => {
+            let x = in_elem(ctx, chip, ng, l)?;
+            let b = chip.sgn0(l, &x)?;
+            out_bit(ctx, ng, l, &b)
+        }
         // the chip's own public-input exposure of an element (C08): instance = (limbs of x, chip PI of x)
         "pi" | "add_pi" => {
             let x = in_elem(ctx, chip, ng, l)?;
